@@ -37,6 +37,7 @@ type Query struct {
 	LoopInits [][2]string
 	KeepFile  bool
 	File      string
+	Role      string // call covers: "pre" (state before the callee's contract is assumed) or "post"
 }
 
 type inputSym struct {
@@ -57,6 +58,7 @@ type Exec struct {
 	tparam      map[string]types.Type
 	warnings    []string
 	assumptions map[string]bool
+	coverRole   string            // role of the cover query being emitted (call covers)
 	defBody     map[string]string // define-fun names of address arithmetic -> their bodies (see lin.go)
 	defMu       sync.Mutex
 	mulBody     map[string]string // define-fun names whose body is a product (sizes of allocations)
@@ -131,6 +133,8 @@ type State struct {
 	loopFresh  bool               // with loopStores: the body also stores into objects allocated by this function
 	defMemo    map[string]string  // define-fun bodies already named on this path
 	lemmaSeen  map[string]bool    // arithmetic lemmas already asserted on this path (elemLemma)
+	poolClass  map[string]string  // instantiation term -> the kind of sequence it indexes ("" = any)
+	assumed    map[string]bool    // short assertions already in the script of this path
 	topCalls   map[string]callRec // most recent contract call per callee made by the function under analysis itself (post-conditions: called_<name>, call_<name>_r<i>)
 	boundedIdx map[string]bool    // index terms known to lie in [0, 2^40) on this path (bounds checked or clamped)
 	storeFresh bool               // set around a store whose target lies in an object allocated by this function
@@ -225,6 +229,14 @@ func (st *State) fork() *State {
 	for k, v := range st.topCalls {
 		n.topCalls[k] = v
 	}
+	n.assumed = make(map[string]bool, len(st.assumed))
+	for k, v := range st.assumed {
+		n.assumed[k] = v
+	}
+	n.poolClass = make(map[string]string, len(st.poolClass))
+	for k, v := range st.poolClass {
+		n.poolClass[k] = v
+	}
 	n.strConst = map[string]V{}
 	for k, v := range st.strConst {
 		n.strConst[k] = v
@@ -305,6 +317,16 @@ func (st *State) assume(c string) {
 	if c == "true" || c == "" {
 		return
 	}
+	// the same fact is not asserted twice on one path (type invariants of re-loaded values, repeated frame facts)
+	if len(c) <= 400 {
+		if st.assumed[c] {
+			return
+		}
+		if st.assumed == nil {
+			st.assumed = map[string]bool{}
+		}
+		st.assumed[c] = true
+	}
 	st.script = append(st.script, "(assert "+c+")")
 }
 
@@ -380,7 +402,7 @@ func (x *Exec) cover(st *State, name, kind string, tags []string, pos, text stri
 		x.obls[name] = o
 		x.order = append(x.order, name)
 	}
-	q := &Query{Expect: "sat", PathID: x.pathID}
+	q := &Query{Expect: "sat", PathID: x.pathID, Role: x.coverRole}
 	var b strings.Builder
 	for _, c := range st.script {
 		b.WriteString(c)
@@ -419,9 +441,29 @@ type qAssume struct {
 	expr *CExpr
 }
 
+// addPoolClass adds an instantiation term that was seen as an index into a particular kind of
+// sequence ("b": bytes, "e:<type>": elements of that type); quantified assumptions whose variable
+// only indexes other kinds of sequence are not instantiated at it.
+func (st *State) addPoolClass(w int, t, class string) {
+	if st.poolClass == nil {
+		st.poolClass = map[string]string{}
+	}
+	if prev, ok := st.poolClass[t]; ok && prev != class {
+		class = "" // used in more than one way: generic
+	}
+	st.poolClass[t] = class
+	st.addPool(w, t)
+}
+
 func (st *State) addPool(w int, t string) {
 	if st.pool == nil {
 		st.pool = map[int][]string{}
+	}
+	if st.poolClass == nil {
+		st.poolClass = map[string]string{}
+	}
+	if _, ok := st.poolClass[t]; !ok {
+		st.poolClass[t] = ""
 	}
 	for _, e := range st.pool[w] {
 		if e == t {
